@@ -245,3 +245,43 @@ class Seq(Shape):
         n = vals.get(name + ".len") or 0
         n = min(n, self.replay_max)
         return {"t": "list", "items": [self.elem.concretize(vals, "%s[%d]" % (name, i)) for i in range(n)]}
+
+
+class DateTime(Shape):
+    """any naive datetime.datetime (microsecond resolution, year 1..9999)"""
+
+    def make(self, ctx, name):
+        from .extmodels import make_datetime
+        return make_datetime(ctx, name)
+
+    def concretize(self, vals, name, made):
+        return {"t": "datetime", "us": vals.get(name) or 0}
+
+
+class Float(Shape):
+    def __init__(self, v=1.5):
+        self.v = v
+
+    def make(self, ctx, name):
+        return self.v
+
+    def concretize(self, vals, name, made):
+        return {"t": "float", "v": self.v}
+
+
+class Concat(Shape):
+    """bytes: concatenation of bytes shapes"""
+
+    def __init__(self, *parts):
+        self.parts = parts
+
+    def make(self, ctx, name):
+        vals = [p.make(ctx, "%s.%d" % (name, i)) for i, p in enumerate(self.parts)]
+        return ctx.bytes_concat(vals)
+
+    def concretize(self, vals, name, made):
+        out = b""
+        for i, p in enumerate(self.parts):
+            d = p.concretize(vals, "%s.%d" % (name, i), None)
+            out += bytes.fromhex(d["hex"])
+        return {"t": "bytes", "hex": out.hex()}
